@@ -989,6 +989,10 @@ class FnTranslator:
                 return self._call_stmt(callee, st.value, None, rest, k, ctx, ex)
             ex.expr(st.value)                                   # evaluated for its exceptions only
             return self._wrap(ex, self.block(rest, k, ctx), ctx)
+        if isinstance(st, ast.Expr) and self.raises and self.cls is not None \
+                and isinstance(st.value, (ast.Subscript, ast.Compare, ast.BinOp, ast.Name, ast.Attribute)):
+            ex.expr(st.value)                   # an expression statement: evaluated for its exceptions only
+            return self._wrap(ex, self.block(rest, k, ctx), ctx)
         if isinstance(st, ast.Expr) and isinstance(st.value, ast.Yield):
             if self.kind != 'generator':
                 raise Unsupported(st, 'yield in a function')
